@@ -181,6 +181,21 @@ def _shard(rec, arg):
             _do(rec, "øD", "the " + w + " of 42!", cls="øD-every-dictionary-word-in-sentence")
         if shard == 0:
             rec.notes["dictionary_words"] = len(ws)
+    elif what == "øD-phrase-pairs":
+        # two small-dictionary phrases (one-character codes) directly next to each other, and a phrase next to a word
+        _, shard, nshards, stride = arg
+        ok = set(string.printable) - set("\\`")
+        small = [w for w in dict.fromkeys(vyxal.dictionary.small_dictionary) if w and all(c in ok and c in vyxal.encoding.codepage for c in w)]
+        words = [w for w in vyxal.dictionary.contents[100:4000:390] if w and all(c in ok for c in w)]
+        i = 0
+        for ia, a in enumerate(small):
+            for ib, b_ in enumerate(small + words):
+                i += 1
+                if i % nshards != shard or (ia * 7 + ib) % stride != 0:
+                    continue
+                _do(rec, "øD", a + b_, cls="øD-adjacent-phrases")
+                if ib % 3 == 0:
+                    _do(rec, "øD", b_ + a + " " + a, cls="øD-adjacent-phrases")
     elif what == "kinds":
         _, shard, nshards = arg
         bodies = [a + b_ for a in "D8ƛλaZ¬+" for b_ in ["", "D", "λ", "1", "ɾ"]]
@@ -257,6 +272,7 @@ def run(rec, tier, seed):
     jobs += [("øc-exh", s, ns, 2 if quick else 3) for s in range(ns)]
     jobs += [("øD-words", s, ns) for s in range(ns)]
     jobs += [("kinds", s, 4) for s in range(4)]
+    jobs += [("øD-phrase-pairs", s, ns, 4 if quick else 1) for s in range(ns)]
     bases = list(range(2, 301))
     if quick:
         small = [2, 3, 7, 10, 16, 27, 36, 64, 255, 256, 300]
